@@ -84,12 +84,14 @@ fn inc(x: u64) -> u64 { x.wrapping_add(1) }
 #[inline(never)] pub fn t51(a: u64, b: u64) -> u64 { let mut s = small(a); s.sort(); let mut t = small(b).to_vec(); t.sort_by_key(|&x| x % 3); t.extend(s.iter().copied()); t.extend_from_slice(&s[..2]); let mut d = vec![1u8, 1, 2, 2, 2, 3, 1]; d.dedup(); s.iter().fold(0u64, |acc, &e| acc * 8 + u64::from(e)) + t.iter().fold(0u64, |acc, &e| acc.wrapping_mul(9).wrapping_add(u64::from(e))) % 1_000_003 * 1_000_000 + d.len() as u64 * 1_000_000_000_000_000 }
 #[inline(never)] pub fn t52(a: u64, b: u64) -> u64 { let w = ["go", "stop", "name x", "value=3"][(a % 4) as usize]; u64::from(w.starts_with("na")) + 2 * u64::from(w.ends_with('p')) + 4 * w.strip_prefix("va").map_or(9, |r| r.len() as u64) + 100 * w.split_once(' ').map_or(7, |(l, r)| (l.len() * 10 + r.len()) as u64) + 10_000 * u64::from(w.contains("to")) + 100_000 * w.trim().len() as u64 + b % 2 }
 
+#[inline(never)] pub fn t53(a: u64, b: u64) -> u64 { let mut x = opt(a); let mut y = opt(b); let o = std::mem::replace(&mut x, Some(b % 7)); std::mem::swap(&mut x, &mut y); let t = std::mem::take(&mut y); let mut v = vec![1u8, 2]; let w = std::mem::take(&mut v); o.unwrap_or(1) % 100 + 100 * x.unwrap_or(2) % 10_000 + 10_000 * t.unwrap_or(3) + 1_000_000 * y.map_or(5, |_| 6) + 10_000_000 * (w.len() + v.len() * 10) as u64 }
+
 fn main() {
     let args: Vec<String> = std::env::args().collect();
     let id: usize = args[1].parse().unwrap();
     let a: u64 = args[2].parse().unwrap();
     let b: u64 = args[3].parse().unwrap();
-    let fs: [fn(u64, u64) -> u64; 53] = [t00, t01, t02, t03, t04, t05, t06, t07, t08, t09, t10, t11, t12, t13, t14, t15, t16, t17, t18, t19, t20, t21, t22, t23, t24, t25, t26, t27, t28, t29, t30, t31, t32, t33, t34, t35, t36, t37, t38, t39, t40, t41, t42, t43, t44, t45, t46, t47, t48, t49, t50, t51, t52];
+    let fs: [fn(u64, u64) -> u64; 54] = [t00, t01, t02, t03, t04, t05, t06, t07, t08, t09, t10, t11, t12, t13, t14, t15, t16, t17, t18, t19, t20, t21, t22, t23, t24, t25, t26, t27, t28, t29, t30, t31, t32, t33, t34, t35, t36, t37, t38, t39, t40, t41, t42, t43, t44, t45, t46, t47, t48, t49, t50, t51, t52, t53];
     let r = std::panic::catch_unwind(|| fs[id](a, b));
     match r { Ok(v) => println!("OK {v}"), Err(_) => println!("PANIC") }
 }
